@@ -249,4 +249,45 @@ theorem tiles_query {n : Nat} {σ : Text} {seg : List Tok} (hn : σ.length = n) 
       List.cons_eq_cons.2 ⟨tok_eq (by omega) (by omega), List.cons_eq_cons.2 ⟨tok_eq (by omega) (by omega),
         List.cons_eq_cons.2 ⟨tok_eq (by omega) (by omega), rfl⟩⟩⟩⟩⟩
 
+/-- `k A {σ⏎}` for a keyword `k` (`type`, `input`, `enum`, …) -/
+theorem tiles_kwA_block {n : Nat} {σ : Text} {seg : List Tok} (k : Text) (kl : Nat) (hkl : k.length = kl) (hk : isName k = true) (hn : σ.length = n)
+    (h : Tiles n σ (seg ++ [eofT n])) :
+    Tiles (k ++ [32, 65, 32, 123] ++ σ ++ [10, 125]).length (k ++ [32, 65, 32, 123] ++ σ ++ [10, 125])
+      (⟨.name, 0, kl, k⟩ :: ⟨.name, kl + 1, kl + 2, [65]⟩ :: ⟨.curlyL, kl + 3, kl + 4, [123]⟩ ::
+        (seg.map (Tok.up (kl + 4)) ++
+          [⟨.curlyR, n + kl + 5, n + kl + 6, [125]⟩, eofT (n + kl + 6)])) := by
+  subst hkl
+  have h1 := Tiles.append_after [125] _ tiles_close seg h
+  have h2 := h1.up (k.length + 4) (by simp [hn])
+  have h3 := Tiles.tok [32] [123] _ .curlyL [123] _ (.char 32 [] (by decide) .nil) lexeme_curlyL trivial h2
+  have h4 := Tiles.tok [32] [65] _ .name [65] _ (.char 32 [] (by decide) .nil) ⟨rfl, rfl⟩ (by rfl) h3
+  refine Tiles.cast (Tiles.tok [] k _ .name k _ .nil ⟨hk, rfl⟩ (by rfl) h4) ?_ ?_ ?_
+  · first | (simp [hn]; done) | (simp [hn]; omega)
+  · simp
+  · rw [List.map_append]
+    refine List.cons_eq_cons.2 ⟨tok_eq (by first | (simp [hn]; done) | (simp [hn]; omega)) (by first | (simp [hn]; done) | (simp [hn]; omega)), ?_⟩
+    refine List.cons_eq_cons.2 ⟨tok_eq (by first | (simp [hn]; done) | (simp [hn]; omega)) (by first | (simp [hn]; done) | (simp [hn]; omega)), ?_⟩
+    refine List.cons_eq_cons.2 ⟨tok_eq (by first | (simp [hn]; done) | (simp [hn]; omega)) (by first | (simp [hn]; done) | (simp [hn]; omega)), ?_⟩
+    refine congrArg (List.map (Tok.up (k.length + 4)) seg ++ ·) ?_
+    simp only [List.map_cons, List.map_nil, Tok.up, eofT]
+    exact List.cons_eq_cons.2 ⟨tok_eq (by omega) (by omega), List.cons_eq_cons.2 ⟨tok_eq (by omega) (by omega), rfl⟩⟩
+
+/-- `schema {σ⏎}` -/
+theorem tiles_schema_block {n : Nat} {σ : Text} {seg : List Tok} (hn : σ.length = n) (h : Tiles n σ (seg ++ [eofT n])) :
+    Tiles ([115, 99, 104, 101, 109, 97, 32, 123] ++ σ ++ [10, 125]).length ([115, 99, 104, 101, 109, 97, 32, 123] ++ σ ++ [10, 125])
+      (⟨.name, 0, 6, [115, 99, 104, 101, 109, 97]⟩ :: ⟨.curlyL, 7, 8, [123]⟩ ::
+        (seg.map (Tok.up 8) ++ [⟨.curlyR, n + 9, n + 10, [125]⟩, eofT (n + 10)])) := by
+  have h1 := Tiles.append_after [125] _ tiles_close seg h
+  have h2 := h1.up 8 (by simp [hn])
+  have h3 := Tiles.tok [32] [123] _ .curlyL [123] _ (.char 32 [] (by decide) .nil) lexeme_curlyL trivial h2
+  refine Tiles.cast (Tiles.tok [] [115, 99, 104, 101, 109, 97] _ .name _ _ .nil ⟨rfl, rfl⟩ (by rfl) h3) ?_ ?_ ?_
+  · simp [hn]
+  · simp
+  · rw [List.map_append]
+    refine List.cons_eq_cons.2 ⟨tok_eq (by simp [hn]) (by simp [hn]), ?_⟩
+    refine List.cons_eq_cons.2 ⟨tok_eq (by simp [hn]) (by simp [hn]), ?_⟩
+    refine congrArg (List.map (Tok.up 8) seg ++ ·) ?_
+    simp only [List.map_cons, List.map_nil, Tok.up, eofT]
+    exact List.cons_eq_cons.2 ⟨tok_eq (by omega) (by omega), List.cons_eq_cons.2 ⟨tok_eq (by omega) (by omega), rfl⟩⟩
+
 end PyGql.Spec
